@@ -82,7 +82,7 @@ func c18Tier(tier string) (L, stackExh, condExh, random int) {
 		return n
 	}
 	if tier == "thorough" {
-		return 4, pow(24, 4) * 4, pow(12, 4) * 2, 500000
+		return 4, pow(24, 4) * 4, pow(12, 4) * 2, 5000000
 	}
 	return 3, pow(24, 3) * 4, pow(12, 3) * 2, 100000
 }
